@@ -2,3 +2,5 @@
 import McpModel.Base.Proto
 import McpModel.EventStore.Props
 import McpModel.EventStore.Driver
+import McpModel.Notify.Props
+import McpModel.Notify.Driver
